@@ -457,6 +457,28 @@ func clobberCase(dir, cid, kind, writer string, rows []map[string]string, valid 
 		os.Chmod(path, 0444)
 	case "short":
 		os.WriteFile(path, []byte("x"), 0644)
+	case "leftover", "noI", "nobucket", "noSnoI":
+		// what an interrupted creation leaves behind: a bbolt file holding part of an index
+		copyFile(valid, path)
+		damage(path, map[string][]string{"leftover": {"noS"}, "noI": {"noI"}, "nobucket": {"nobucket"}, "noSnoI": {"noS", "noI"}}[kind], rng)
+	case "emptybolt", "otherbolt", "boltdata":
+		// a bbolt database of some other application (also one that has a bucket named data)
+		db, err := bbolt.Open(path, 0644, nil)
+		if err != nil {
+			fatal("bbolt open: %v", err)
+		}
+		db.Update(func(tx *bbolt.Tx) error {
+			switch kind {
+			case "otherbolt":
+				b, _ := tx.CreateBucket([]byte("accounts"))
+				b.Put([]byte("alice"), []byte("100"))
+			case "boltdata":
+				b, _ := tx.CreateBucket([]byte("data"))
+				b.Put([]byte("precious"), []byte("do not lose"))
+			}
+			return nil
+		})
+		db.Close()
 	}
 	before := fileHash(path)
 	oc := "OK"
@@ -603,11 +625,18 @@ func doubleFlush(dir, cid string, rows []map[string]string) {
 // read-write (bbolt's default): open with options, probe, close — the file must not change.
 func readOnlyDBCase(dir, cid, valid string, rows []map[string]string, mode string) {
 	path := filepath.Join(dir, cid+".rwdb")
-	copyFile(valid, path)
-	// what opening and closing the handle alone does to the file is bbolt's business
-	if db, err := bbolt.Open(path, 0644, nil); err == nil {
-		db.Close()
+	if strings.HasPrefix(mode, "big/") {
+		// the same rows written by the disk-backed writer
+		if b := writeIndex(path, "big", rows); b.outcome != "OK" {
+			pr("READONLYDB %s BUILD-%s UNCHANGED\n", cid, b.outcome)
+			return
+		}
+	} else {
+		copyFile(valid, path)
 	}
+	// the file exactly as the writer left it: a read-write bbolt handle on a file a writer
+	// has finished commits nothing by itself, so any change is due to how the file was written
+	// or to what the index does with the handle
 	before := fileHash(path)
 	res := "OK"
 	_, ok := guard(func() {
